@@ -498,6 +498,48 @@ def k15(ctx, rid):
         raise core.AnchorLost('validation error kinds raised by the scan: %d' % n)
 
 
+def k16(ctx, rid):
+    """BlobVersion is the one validation error that is deliberately not a quarantine class (an unknown version must never be
+    moved aside, the start fails instead).  It may therefore only be raised for a header that is a blob header: every raise of
+    BlobVersion is reached only after the magic-byte check passed.  Otherwise a zero-filled or garbage header (the freshly
+    created blob whose header never reached the disk) makes Storage::init fail instead of being quarantined."""
+    prog = ctx.prog
+
+    def raises(g, variant):
+        out = []
+        for c in g.calls:
+            if c.name == 'validation' and 'error::Error' in c.full and c.args and c.bb in g.reachable():
+                if any(o.kind == 'agg' and o.data.get('adt') == 'error::ValidationErrorKind' and o.data.get('variant') == variant for o in core.origins(g, c.args[0])):
+                    out.append(c)
+        return out
+    magic_fns = {g.id for g in prog.fns.values() if g.file == 'src/blob/header.rs' and raises(g, 'BlobMagicByte')}
+    n = 0
+    for g in prog.fns.values():
+        if g.file != 'src/blob/header.rs':
+            continue
+        for c in raises(g, 'BlobVersion'):
+            n += 1
+            key = 'version-error-only-after-magic|%s' % g.id
+            passes = []
+            for m in raises(g, 'BlobMagicByte'):
+                for sw in core.deciding_switches(g, m.bb):
+                    t = g.blocks[sw]['t']
+                    outs = [tg for _, tg in t['vals']] + [t['otherwise']]
+                    passes += [x for x in outs if x is not None and m.bb not in g.reach_from([x], avoid_enter=[sw])]
+            for x in g.calls:
+                if x.bb in g.reachable() and any(t in magic_fns and t != g.id for t in prog.resolve(x)):
+                    ob = core.ok_block(g, x)
+                    if ob is not None:
+                        passes.append(ob)
+            if passes and c.bb not in g.reach_from([0], avoid_enter=passes):
+                ctx.ok(rid, key, c.where(), 'raised only after the magic-byte check passed')
+            else:
+                ctx.bad(rid, key, c.where(), 'ValidationErrorKind::BlobVersion (not a quarantine class) can be raised for a header whose magic byte was not checked: '
+                        'a zero-filled / garbage blob header fails Storage::init instead of being quarantined')
+    if n < 1:
+        raise core.AnchorLost('raises of ValidationErrorKind::BlobVersion in src/blob/header.rs: %d' % n)
+
+
 RULES = [
     Rule('C06.K1', 'every blob-file read / decode in the open path is converted to a quarantine-class error before `?`', k1, 6),
     Rule('C06.K2', 'the sequential scan accepts a header only after comparing the end of its extent with the file size and stops only at the exact end of file', k2, 2),
@@ -513,4 +555,5 @@ RULES = [
     Rule('C06.K15', 'every validation error kind the scan can raise is classified as corruption by should_save_corrupted_blob', k15, 4),
     Rule('C06.K8', 'the id of every blob that failed to open (ignored or quarantined) is never reused (C07.H6/H6d instances)', k8, 4),
     Rule('C06.K7', 'a torn or stale index file is never trusted: gate tests every header fact (blob size by equality), the file extent, and the written flag is set in a second phase (C03.I2/I5/I8 instances)', k7, 8),
+    Rule('C06.K16', 'the non-quarantine validation error BlobVersion is raised only after the magic-byte check passed', k16, 1),
 ]
